@@ -139,7 +139,8 @@ func runExpScenario(sc expScenario, windowSec int) (res expResult) {
 		}
 		t0 := nowSec()
 		// (safely alive: a write to a key within a second of its deadline may already be a re-creation)
-		safelyAlive := m.live && (m.deadline == 0 || now+1 < m.deadline)
+		liveBefore, deadlineBefore := m.live, m.deadline
+		deletes := 0 // successful deletions made by this step (ReAdd's own, Delete, Remove, DeleteWithXattrs)
 		var err error
 		newDeadline := func() uint32 {
 			if a.TTL <= 0 {
@@ -154,11 +155,8 @@ func runExpScenario(sc expScenario, windowSec int) (res expResult) {
 			if a.K == "ReAdd" {
 				// insert over a tombstone: the key is deleted first (no matter whether it existed)
 				if ds.Delete(a.Key) == nil {
-					if !safelyAlive {
-						m.lives++ // deleting a tombstone again may succeed, with an event (DESIGN 2.2)
-					}
+					deletes++ // (the Add that follows starts a new life)
 					m.live, m.deadline = false, 0
-					safelyAlive = false // (the Add that follows starts a new life)
 				}
 			}
 			var added bool
@@ -334,17 +332,13 @@ func runExpScenario(sc expScenario, windowSec int) (res expResult) {
 				err = ds.DeleteWithXattrs(ctx, a.Key, nil)
 			}
 			if err == nil {
-				if !safelyAlive {
-					m.lives++ // (a re-deletion: see ReAdd)
-				}
+				deletes++
 				m.live, m.deadline = false, 0
 			}
 		case "Delete":
 			err = ds.Delete(a.Key)
 			if err == nil {
-				if !safelyAlive {
-					m.lives++
-				}
+				deletes++
 				m.live, m.deadline = false, 0
 			}
 		case "Recreate":
@@ -407,7 +401,19 @@ func runExpScenario(sc expScenario, windowSec int) (res expResult) {
 		}
 		if err == nil && a.K != "Reopen" && a.K != "Recreate" {
 			m.row = true
-			if m.live && !safelyAlive {
+		}
+		{
+			// deletion events this step can account for. Safely alive = alive, and not within a second
+			// of its deadline even when the step ended (a slow step may have met an expired document):
+			// such a document uses up one event when it is deleted; deleting anything else again may
+			// succeed with an event of its own (DESIGN 2.2), and a document that comes to life gets one
+			safe := liveBefore && (deadlineBefore == 0 || nowSec()+1 < deadlineBefore)
+			if deletes > 0 && !safe {
+				m.lives += deletes
+			} else if deletes > 1 {
+				m.lives += deletes - 1
+			}
+			if err == nil && a.K != "Reopen" && a.K != "Recreate" && m.live && (!safe || deletes > 0) {
 				m.lives++
 			}
 		}
